@@ -176,11 +176,12 @@ type World struct {
 	clients map[string]*Client
 	rng     *rand.Rand
 
-	splitAt map[int]bool
-	prio    map[string]int // non-nil: priority scheduling for this scenario
-	rpcs    int
-	epoch   int
-	bg      int64 // background goroutines of transactions started and not yet finished (lifecycle hooks)
+	splitAt        map[int]bool
+	prio           map[string]int // non-nil: priority scheduling for this scenario
+	rpcs           int
+	boundedReverse bool
+	epoch          int
+	bg             int64 // background goroutines of transactions started and not yet finished (lifecycle hooks)
 
 	schedMu sync.Mutex
 	parked  []*parkedRPC
